@@ -120,6 +120,12 @@ def all_seeded():
             res = {"error": out[-300:]}
         caught = [p for p, r in res.items() if isinstance(r, dict) and r.get("exit") == 1]
         rows.append((name, meta["property"], caught, res))
+        # record in the seed's own meta.json what was run against it and what fired
+        meta["detection"] = {"ran": [f"git -C /repo apply {name}/patch.diff; python3 run.py check {p} quick; git -C /repo checkout -- ." for p in props],
+                             "caught_by": caught,
+                             "signatures": {p: r.get("signatures", []) for p, r in res.items() if isinstance(r, dict)},
+                             "repo_head": sh(["git", "-C", REPO, "rev-parse", "--short", "HEAD"])[1].strip()}
+        json.dump(meta, open(os.path.join(d, "meta.json"), "w"), indent=1)
         print(name, meta["property"], "caught by", caught, flush=True)
     json.dump([{"seed": n, "property": p, "caught_by": c, "detail": r} for n, p, c, r in rows], open(os.path.join(base, "RESULTS.json"), "w"), indent=1)
     missed = [n for n, p, c, r in rows if not c]
